@@ -87,20 +87,28 @@ def eatCommaSpaces (s : Text) : Option Text :=
   | c :: _ => if isReSpace c then some (s.dropWhile isReSpace) else none
   | [] => none
 
-/-- `((?P<year>\d{4} ?- ?\d{4}|\d{4}),?\s+)?` — (year, rest) -/
+/-- `\d{4} ?- ?\d{4}` then `,?\s+` -/
+def eatRangeYear (s : Text) : Option (Text × Text) := do
+  let (y1, r) ← eatDigits4 s
+  let (sp1, r) := eatOpt ' ' r
+  let r ← eat ['-'] r
+  let (sp2, r) := eatOpt ' ' r
+  let (y2, r) ← eatDigits4 r
+  let r ← eatCommaSpaces r
+  pure (y1 ++ sp1 ++ ['-'] ++ sp2 ++ y2, r)
+
+/-- `\d{4}` then `,?\s+` -/
+def eatSingleYear (s : Text) : Option (Text × Text) := do
+  let (y, r) ← eatDigits4 s
+  let r ← eatCommaSpaces r
+  pure (y, r)
+
+/-- `((?P<year>\d{4} ?- ?\d{4}|\d{4}),?\s+)?` — (year, rest): the range form is tried first -/
 def eatYear (s : Text) : Option Text × Text :=
-  let range : Option (Text × Text) := do
-    let (y1, r) ← eatDigits4 s
-    let (sp1, r) := eatOpt ' ' r
-    let r ← eat "-".toList r
-    let (sp2, r) := eatOpt ' ' r
-    let (y2, r) ← eatDigits4 r
-    let r ← eatCommaSpaces r
-    pure (y1 ++ sp1 ++ "-".toList ++ sp2 ++ y2, r)
-  match range with
+  match eatRangeYear s with
   | some (y, r) => (some y, r)
   | none =>
-    match (do let (y, r) ← eatDigits4 s; let r ← eatCommaSpaces r; pure (y, r) : Option (Text × Text)) with
+    match eatSingleYear s with
     | some (y, r) => (some y, r)
     | none => (none, s)
 
@@ -197,22 +205,34 @@ def mergedYear (years : List Text) : Option Text :=
   | some lo, some hi => if lo == hi then some lo else some (lo ++ " - ".toList ++ hi)
   | _, _ => none
 
+/-- what `merge_copyright_lines` knows about one input line: statement, years, prefix -/
+abbrev Parsed := Text × List Text × Text
+
+def parseLines (endRe : Re) (lines : List Text) : List Parsed :=
+  lines.filterMap fun l => (searchLineWith endRe l).map fun m => (m.statement, parseYear m.year, m.pref)
+
+/-- all years stated for `stmt` -/
+def yearsOf (parsed : List Parsed) (stmt : Text) : List Text :=
+  (parsed.filter (·.1 == stmt)).flatMap (·.2.1)
+
+/-- the prefix text used for `stmt`: the most common one of its lines if it is one of the table -/
+def prefixFor (parsed : List Parsed) (stmt : Text) : Text :=
+  let common := (mostCommon ((parsed.filter (·.1 == stmt)).map (·.2.2))).getD []
+  match Generated.copyrightPrefixes.find? (·.2 == common) with
+  | some kv => kv.2
+  | none => ((Generated.copyrightPrefixes.find? (·.1 == "spdx")).map (·.2)).getD []
+
+/-- the single merged line of `stmt` -/
+def lineFor (parsed : List Parsed) (stmt : Text) : Text :=
+  match mergedYear (yearsOf parsed stmt) with
+  | some y => prefixFor parsed stmt ++ [' '] ++ y ++ [' '] ++ stmt
+  | none => prefixFor parsed stmt ++ [' '] ++ stmt
+
 /-- `merge_copyright_lines`; the input list is the iteration order of the set. The merged
     line is built directly from the prefix text, the year range and the statement. -/
 def mergeLinesWith (endRe : Re) (lines : List Text) : List Text :=
-  let parsed := lines.filterMap fun l =>
-    (searchLineWith endRe l).map fun m => (m.statement, parseYear m.year, m.pref)
-  dedup (parsed.map fun x =>
-    let group := parsed.filter (·.1 == x.1)
-    let common := (mostCommon (group.map (·.2.2))).getD []
-    let prefixText :=
-      match Generated.copyrightPrefixes.find? (·.2 == common) with
-      | some kv => kv.2
-      | none => ((Generated.copyrightPrefixes.find? (·.1 == "spdx")).map (·.2)).getD []
-    let years := group.flatMap (·.2.1)
-    match mergedYear years with
-    | some y => prefixText ++ [' '] ++ y ++ [' '] ++ x.1
-    | none => prefixText ++ [' '] ++ x.1)
+  let parsed := parseLines endRe lines
+  dedup (parsed.map fun x => lineFor parsed x.1)
 
 def mergeLines (lines : List Text) : List Text := mergeLinesWith Generated.endRe lines
 
